@@ -263,15 +263,16 @@ UpRecv == /\ IsEvent("up.recv")
                              THEN {} ELSE {"Inv_C12_UpOpt"})
                        \cup (IF EcsOk(ev) THEN {} ELSE {"Inv_C12_Ecs"})
                        \cup (IF EcsClientOk(ev) THEN {} ELSE {"Inv_C12_EcsClient"})
-                       \cup (IF LiveEntryAt(ev.name, ev.cls, ev.typ, ev.t) /\ Outst(<<ev.name, ev.cls, ev.typ>>) >= 1
+                       \* (a question is its name in any letter case)
+                       \cup (IF LiveEntryAt(LowerName(ev.name), ev.cls, ev.typ, ev.t) /\ Outst(<<LowerName(ev.name), ev.cls, ev.typ>>) >= 1
                              THEN {"Inv_C19_SingleUp"} ELSE {}))
              /\ upq' = upq \cup {<<ev.up, ev.name, ev.cls, ev.typ>>}
-             /\ outst' = With(outst, <<ev.name, ev.cls, ev.typ>>, Outst(<<ev.name, ev.cls, ev.typ>>) + 1)
+             /\ outst' = With(outst, <<LowerName(ev.name), ev.cls, ev.typ>>, Outst(<<LowerName(ev.name), ev.cls, ev.typ>>) + 1)
           /\ UNCHANGED <<cfg, q, answered, upsent, stores, pf, fwd, seen, ladm>>
 
 UpSend == /\ IsEvent("up.send")
           /\ upsent' = With(upsent, Trace[l].tok, Trace[l])
-          /\ LET k == <<Trace[l].name, Trace[l].cls, Trace[l].typ>> IN
+          /\ LET k == <<LowerName(Trace[l].name), Trace[l].cls, Trace[l].typ>> IN
              outst' = With(outst, k, IF Outst(k) > 0 THEN Outst(k) - 1 ELSE 0)
           /\ UNCHANGED <<cfg, q, answered, upq, stores, pf, fwd, seen, ladm>>
 
